@@ -352,11 +352,27 @@ fn selfcheck(prop: Prop, tier: &str, seed: u64, n: usize, n_wide: usize, mine: &
     if tier == "thorough" {
         plan.push((16, (n_wide / 4).max(n), 5));
         plan.push((8, (n_wide / 4).max(n), 7));
+    } else if prop == Prop::C11 {
+        // Process-wide lazily initialised state is a coin flip per process (seeded change
+        // c11p): two more processes with pasts of their own, all children side by side.
+        plan.push((8, (n_wide * 2 / 3).max(n), 5));
+        plan.push((8, (n_wide * 2 / 3).max(n), 7));
     }
+    let n_children = plan.len();
+    let mut children = Vec::new();
     for (th, n, salt) in plan {
-        let out = Command::new(&exe)
+        let child = Command::new(&exe)
             .args(["digests", prop.id(), tier, &seed.to_string(), "0", &n.to_string(), &th.to_string(), &salt.to_string()])
-            .output()
+            .stdin(std::process::Stdio::null())
+            .stdout(std::process::Stdio::piped())
+            .stderr(std::process::Stdio::piped())
+            .spawn()
+            .map_err(|e| format!("selfcheck: cannot run child: {e}"))?;
+        children.push((th, n, child));
+    }
+    for (th, n, child) in children {
+        let out = child
+            .wait_with_output()
             .map_err(|e| format!("selfcheck: cannot run child: {e}"))?;
         if !out.status.success() {
             return Err(format!("selfcheck: child failed: {}", String::from_utf8_lossy(&out.stderr)));
@@ -397,7 +413,7 @@ fn selfcheck(prop: Prop, tier: &str, seed: u64, n: usize, n_wide: usize, mine: &
     let j = J::obj()
         .set("runs_compared_across_processes", J::u(n_wide.max(n).min(mine.len()) as u64))
         .set("process_worker_counts", J::Arr(vec![J::u(threads() as u64), J::u(3), J::u(16)]))
-        .set("child_processes", J::u(if tier == "thorough" { 4 } else { 2 }))
+        .set("child_processes", J::u(n_children as u64))
         .set("child_process_pasts", J::s("every child first executes 24 unrelated history runs of its own (salted seed), so that lazily initialised process-wide state starts from another first use than in the parent"))
         .set("digest_comparisons", J::u(compared as u64))
         .set("output_mismatch_at_run", match mismatch_out {
